@@ -60,6 +60,14 @@ type loopEntry struct {
 	measure Term
 	hasMeas bool
 	pcLen   int
+	// cross-check of the inferred write set: state right after the havoc at the loop head
+	headHeaps map[string]Term
+	headCells map[*ssa.Alloc]string
+	headAlloc Term
+	mods      map[string]bool
+	modCells  map[*ssa.Alloc]bool
+	modGhosts map[string]bool
+	headGhost map[string]string
 }
 
 type Frame struct {
@@ -215,6 +223,9 @@ func (ex *Exec) heapConst(name, sort string, epoch, ver int) Term {
 func (ex *Exec) heap(st *State, name, sort string) Term {
 	if t, ok := st.heaps[name]; ok {
 		return t
+	}
+	if strings.Contains(sort, "RV") {
+		ex.w.declRV(ex.d)
 	}
 	st.hsorts[name] = sort
 	t := ex.heapConst(name, sort, st.epoch, st.hver[name])
